@@ -1,7 +1,7 @@
 /-
 Model of the iteration contract of galactics/beyond over integer microseconds:
 
-* `Date.range(start, stop, step, inclusive)`            beyond/dates/date.py  (DateRange.__init__, __iter__, __len__)
+* `Date.range(start, stop, step, inclusive)`            beyond/dates/date.py  (DateRange.__init__, __iter__)
 * `AnalyticalPropagator.iter` / `_iter`                 beyond/propagators/base.py
 * `NumericalPropagator.iter`, `propagate`               beyond/propagators/base.py
 * `KeplerNum._iter` (control flow only, fixed step)     beyond/propagators/keplernum.py
